@@ -36,6 +36,11 @@ Qed.
 Lemma sn_send_mq P s p : all_mq P (outs_of (sn_send s p)).
 Proof. apply sn_send_owned_mq. Qed.
 
+Lemma sn_send_now_mq P s p : all_mq P (outs_of (sn_send_now s p)).
+Proof.
+  unfold sn_send_now. destruct (len (pack p) <=? MaxPacketLen); cbn; first [apply all_mq_nil|apply all_mq_sn].
+Qed.
+
 Lemma mq_send_mq (P : mq_pkt -> Prop) s m : P m -> all_mq P (outs_of (mq_send s m)).
 Proof. intros H. cbn. apply all_mq_one, H. Qed.
 
@@ -63,6 +68,7 @@ Ltac mq_auto :=
     [ apply all_mq_nil
     | apply sn_send_mq
     | apply sn_send_owned_mq
+    | apply sn_send_now_mq
     | apply send_all_mq
     | apply mq_send_mq; reflexivity
     | apply andthen_mq; [|intros ?]
